@@ -74,6 +74,7 @@ func runC18(p *core.Program, r *core.Report) {
 	// round 8: the shared copy helper gives every field a copy statement
 	chainRules(p, r, "R17", "C17", []string{"C17.R9"}, "every field of the struct gets a copy statement")
 	chainRules(p, r, "R18", "C06", []string{"C06.R9"}, "a package is processed with the generators it was given")
+	c18R19(p, r)
 	// R6: "foreign types correctly imported" - every package the type printer registered is
 	// imported under the very name the rendered field types use (C03.R2's printer rule)
 	r.Floor("R6", 2)
